@@ -190,6 +190,7 @@ struct qb_ipcs_connection {
 	int32_t poll_events;
 	int32_t outstanding_notifiers;
 	int32_t closed_completed;
+	int32_t closed_in_progress;
 	char description[CONNECTION_DESCRIPTION];
 	struct qb_ipcs_connection_stats_2 stats;
 };
